@@ -3,7 +3,6 @@ package codec
 import (
 	"bytes"
 	"fmt"
-	"math/rand/v2"
 	"testing"
 	"time"
 
@@ -125,57 +124,6 @@ func TestC02Unit(t *testing.T) {
 
 // ------------------------------------------------------------ C14 (unit level)
 
-// pluginCaps generates the capability lists a plugin might return.
-func pluginCaps(r *rand.Rand) []wire.Cap {
-	var caps []wire.Cap
-	n := r.IntN(8)
-	switch r.IntN(10) {
-	case 0:
-		n = 0
-	case 1:
-		n = 20 + r.IntN(21)
-	}
-	target := -1
-	if r.IntN(3) == 0 { // aim at the 255-byte boundary of the parameter
-		target = 243 + r.IntN(14)
-		n = 40
-	}
-	total := 6
-	for i := 0; i < n; i++ {
-		c := wire.Cap{Code: uint8(r.IntN(256))}
-		if r.IntN(10) == 0 {
-			c.Code = 65
-		}
-		l := r.IntN(12)
-		switch r.IntN(20) {
-		case 0:
-			l = 250 + r.IntN(51) // around and above 255
-		case 1:
-			l = 100 + r.IntN(100)
-		case 2:
-			l = 0
-		}
-		if target >= 0 {
-			l = r.IntN(40)
-			if c.Code != 65 && total+2+l > target {
-				l = target - total - 2
-				if l < 0 {
-					break
-				}
-				c.Value = randB(r, l)
-				caps = append(caps, c)
-				break
-			}
-		}
-		c.Value = randB(r, l)
-		if c.Code != 65 {
-			total += 2 + l
-		}
-		caps = append(caps, c)
-	}
-	return caps
-}
-
 var asBoundary = []uint32{1, 2, 23455, 23456, 23457, 65534, 65535, 65536, 65537, 4199999999, 4200000000, 4294967294, 4294967295}
 var holdBoundary = []uint16{0, 3, 4, 9, 90, 180, 255, 256, 65534, 65535}
 
@@ -220,7 +168,7 @@ func TestC14Unit(t *testing.T) {
 			for _, h := range holdBoundary {
 				checkNewOpen(b, as, h, r.Uint32(), nil)
 				checkNewOpen(b, as, h, r.Uint32(), []wire.Cap{{Code: 1, Value: []byte{0, 1, 0, 1}}, {Code: 65, Value: u32b(as + 1)}, {Code: 2}})
-				checkNewOpen(b, as, h, r.Uint32(), pluginCaps(r))
+				checkNewOpen(b, as, h, r.Uint32(), gen.PluginCaps(r))
 			}
 		}
 	})
@@ -258,7 +206,7 @@ func TestC14Unit(t *testing.T) {
 				if h == 1 || h == 2 {
 					h = 3
 				}
-				caps := pluginCaps(r)
+				caps := gen.PluginCaps(r)
 				checkNewOpen(b, as, h, r.Uint32(), caps)
 				if b.sample == nil && len(caps) > 1 && len(caps) < 4 {
 					b.sample = map[string]any{"as": as, "hold": h, "caps": fmt.Sprint(caps)}
